@@ -20,9 +20,9 @@ import (
 func init() {
 	vRegister("vC18_local", vC18_local)
 	vRegister("vC18_actor", vC18_actor)
+	vRegister("vC18_actor5", vC18_actor5)
 	vRegister("vC18_remote", vC18_remote)
 	vRegister("vC18_batch", vC18_batch)
-	vRegister("vC18_dbg", vC18_dbg)
 }
 
 // ---- environment ---------------------------------------------------------------------------------------------------
@@ -226,7 +226,10 @@ func vC18_local() {
 
 // ---- the dead-letter actor: counts and publishes every letter once -------------------------------------------------------
 
-func vC18_actor() {
+func vC18_actor()  { vC18_letters(3) }
+func vC18_actor5() { vC18_letters(5) }
+
+func vC18_letters(K int) {
 	sys := vC18_system()
 	es := &vC18Stream{}
 	x := newDeadLetter()
@@ -237,9 +240,8 @@ func vC18_actor() {
 	recv := [2]*PID{vC18_pid(sys, "r0"), vC18_pid(sys, "r1")}
 	snd := vC18_pid(sys, "s")
 	var per [2]int64
-	const K = 3
-	var msgs [K]*vC18Msg
-	var to [K]int
+	var msgs [5]*vC18Msg
+	var to [5]int
 	for k := 0; k < K; k++ {
 		msgs[k] = &vC18Msg{tag: k}
 		to[k] = vChoose("receiver", 2)
@@ -363,19 +365,4 @@ func vC18_batch() {
 		}
 	}
 	vCover("end")
-}
-
-func vC18_dbg() {
-	sys := vC18_system()
-	target := vC18_pid(sys, "target")
-	s := target.address.String()
-	vAssert(len(s) > 5, "dbg-len")
-	vAssert(s[0] == 'g', "dbg-s0")
-	wire := &internalpb.RemoteMessage{Receiver: s, Message: []byte{1}}
-	r := wire.GetReceiver()
-	vAssert(len(r) > 5 && r[0] == 'g', "dbg-r")
-	a, err := address.Parse(r)
-	vAssert(err == nil, "dbg-err")
-	vAssert(a.Port() == 9000, "dbg-port")
-	vAssert(a.String() == s, "dbg-rt")
 }
